@@ -211,6 +211,9 @@ v("C14", "b5-accounting-drift", "break", "middleware/cache/cache.go", "\t\t\t\t\
 v("C14", "b6-ctype-not-replayed", "break", "middleware/cache/cache.go", "\t\t\t\tc.Response().Header.SetContentTypeBytes(e.ctype)\n", "", "cache.item.ctype", "content type lost on hit")
 v("C14", "b7-next-under-lock", "break", "middleware/cache/cache.go", "\t\t// make sure we're not blocking concurrent requests - do unlock\n\t\tmux.Unlock()\n\n\t\t// Continue stack, return err to Fiber if exist\n\t\tif err := c.Next(); err != nil {\n\t\t\treturn err\n\t\t}", "\t\t// Continue stack, return err to Fiber if exist\n\t\tif err := c.Next(); err != nil {\n\t\t\tmux.Unlock()\n\t\t\treturn err\n\t\t}\n\t\tmux.Unlock()", "Next", "origin handler under the cache lock")
 v("C14", "n1-hit-headers-order", "benign", "middleware/cache/cache.go", "\t\t\t\tc.Response().SetBodyRaw(e.body)\n\t\t\t\tc.Response().SetStatusCode(e.status)\n", "\t\t\t\tc.Response().SetStatusCode(e.status)\n\t\t\t\tc.Response().SetBodyRaw(e.body)\n", why="independent setters swapped")
+v("C14", "b8-pop-zeroes-slot", "break", "middleware/cache/heap.go", "\th.entries = h.entries[0 : n-1]\n\treturn h.entries[0:n][n-1]", "\tx := h.entries[n-1]\n\th.entries[n-1] = heapEntry{}\n\th.entries = h.entries[0 : n-1]\n\treturn x", "entries-slot-store", "the vacated slot loses the handle that put recycles")
+v("C14", "b9-put-handle-from-len", "break", "middleware/cache/heap.go", "\t\tidx = h.entries[:n+1][n].idx", "\t\tidx = n", "put:handle-source", "recycled handle replaced by the slice length: collides with a live handle")
+v("C14", "n2-swap-through-temp", "benign", "middleware/cache/heap.go", "\th.entries[i], h.entries[j] = h.entries[j], h.entries[i]", "\ttmp := h.entries[i]\n\th.entries[i] = h.entries[j]\n\th.entries[j] = tmp", why="same permutation written with a temporary")
 
 # ---------------------------------------------------------------- C16
 v("C16", "b1-referer-full-url", "break", "middleware/csrf/csrf.go", "referer = refererURL.Scheme + \"://\" + refererURL.Host", "referer = refererURL.String()", "refererMatchesHost", "reverts F14")
